@@ -325,3 +325,21 @@ func (r *Run) Finish() int {
 		r.Prop, verdict, r.Tier, r.Seed, r.evals, distinct, len(r.violations), len(known), time.Since(r.start).Seconds())
 	return code
 }
+
+// WAL writes an input to the run directory before the code under test touches it and
+// returns the function that removes it again.  If the process dies with a fatal error
+// (which recover cannot intercept), the files left behind are the inputs that were in
+// flight; the check script attaches them to the crash violation.
+func WAL(input string) func() {
+	dir := os.Getenv("VERIF_RUNDIR")
+	if dir == "" {
+		return func() {}
+	}
+	dir = filepath.Join(dir, "wal")
+	os.MkdirAll(dir, 0o777)
+	p := filepath.Join(dir, Hash(input))
+	if err := os.WriteFile(p, []byte(input), 0o666); err != nil {
+		return func() {}
+	}
+	return func() { os.Remove(p) }
+}
